@@ -906,6 +906,11 @@ def gen(rng, tier, n):
             for f in range(64):
                 out.append(pcase(rng, d, f))
     out += pointer_chain_cases(rng, tier)
+    # messages shorter than / just as long as the header, every length 0..13, several flag sets
+    for ln in range(0, 14):
+        for fl in (0, 1, 21, 63):
+            out.append(pcase(rng, bytes(rng.randrange(256) for _ in range(ln)), fl))
+            out.append("t:%d:0|%s" % (rng.choice([0, 1]), bytes(rng.randrange(256) for _ in range(ln)).hex()))
     out += overread_cases(rng, tier)
     out += pointer_depth_cases(rng, tier)
     out += rcode_cases(rng, tier)
